@@ -94,18 +94,18 @@ def cases(tier, seed):
         for grp in ("geometry", "as_geometry", "multisec"):
             out.append(dict(kind="warn", what="unknown_surface_key", key=key, group=grp))
     # ---- valid models
-    n = 16 if tier == "quick" else 120
+    n = 16 if tier == "quick" else 240
     for k in range(n):
         c = rand_valid(rng, k)
         c["_cost"] = 10 if c["model"] == "as" else 4
         out.append(c)
-    n = 4 if tier == "quick" else 30
+    n = 4 if tier == "quick" else 60
     for k in range(n):
         ns = 3 + k % 2
         out.append(dict(kind="valid", model="multisec", num_sections=ns, symmetry=bool(k % 2 == 0), seed=int(rng.integers(1 << 30)), shift=bool(k % 4 < 3),
                         nys=[int(rng.integers(2, 5)) if k % 2 == 0 else 3 for _ in range(ns)], nx=int(rng.integers(2, 4)),
                         flow=dict(alpha=float(np.round(rng.uniform(1, 8), 2)), v=50.0, rho=1.0, Mach_number=0.3, re=1e6), surfaces=[], _cost=6))
-    n = 3 if tier == "quick" else 20
+    n = 3 if tier == "quick" else 40
     for k in range(n):
         m = int(rng.integers(3, 6))
         subs = [rand_valid(rng, int(rng.integers(100))) for _ in range(m)]
